@@ -24,8 +24,7 @@ def run(repo, res, tier):
     for r in an["results"]:
         sk |= set(r["skip_helpers"])
     res.floor("skip helpers", len(sk), 2)
-    for h in sorted(sk):
-        res.oblige("WSC-SKIP", f"skip helper {h} recognised (loop over tokens discarding is_WSC tokens)", ok=True)
+    parserules.rule_wsc_skip(repo, res)
     problems = tables.tb3(repo)
     for c in tables.grammar_classes(repo):
         g = tables.grammar_instance(repo, c)
